@@ -431,6 +431,7 @@ func runItem(prog *ssa.Program, it item) (res *itemResult) {
 	ex := sym.NewExec(prog, ctx, solver)
 	ex.Trace = *flagTrace
 	ex.HarnessPk = it.H.Pkg
+	ex.RepoDir = *flagRepo
 	ex.AllowPanic = it.H.AllowPanic
 	ex.NoMerge = it.H.NoMerge
 	ex.LazyAll = it.H.LazyAll
@@ -771,6 +772,8 @@ func TestVerifReplay(t *testing.T) {
 				os.WriteFile(path, []byte("#!/bin/sh\nexport GOFLAGS=-mod=mod GOPROXY=off GOSUMDB=off GOTOOLCHAIN=local VERIF_VARIANT=1\n"+cmdline+"\n"), 0o755)
 			}
 			return path, true, "native assertion failed: " + m[1]
+		case strings.Contains(so, "symbolic only"):
+			return path, false, "harness is not natively executable (symbolic-only intrinsic)"
 		case strings.Contains(so, "panic:") && err != nil:
 			m := regexp.MustCompile(`panic: ([^\n]*)`).FindStringSubmatch(so)
 			return path, true, "native panic: " + m[1]
